@@ -16,6 +16,7 @@ import AferoVerif.Engine.Archive
 import AferoVerif.Engine.Sftp
 import AferoVerif.Engine.Gcs
 import AferoVerif.Engine.Walk
+import AferoVerif.Engine.Conc
 open AferoVerif
 
 partial def loop {σ : Type} (h : IO.FS.Stream) (out : IO.FS.Stream) (step : σ → String → σ × String) (s : σ) : IO Unit := do
@@ -44,4 +45,5 @@ def main (args : List String) : IO UInt32 := do
   | ["sftp"] => loop stdin stdout Engine.Sftp.stepLine Engine.Sftp.init; return 0
   | ["gcs"] => loop stdin stdout Engine.Gcs.stepLine {}; return 0
   | ["walk"] => loop stdin stdout Engine.Walk.stepLine []; return 0
+  | ["conc"] => loop stdin stdout Engine.Conc.stepLine (); return 0
   | _ => IO.eprintln "usage: driver <engine>"; return 2
